@@ -331,7 +331,60 @@ def reaction_prob(eng, res, rule="R-REACTION-PROB"):
     res.floor(rule, n_use, 3)
 
 
+def match_dedup(eng, res, rule="R-MATCH-DEDUP"):
+    """get_prob drops search states that compare equal to one already handled.  Two states that differ in their block
+    masses (same atoms, different split between blocks) are different paths with their own probability: either the
+    equality can never hold for two distinct states (it compares, by identity, a deep-copied notation object), or it
+    must compare the block masses of the two states."""
+    ci = eng.prog.cls("PossibleMatch")
+    eq = ci.method("__eq__")
+    users = [f for q, f in eng.prog.functions.items() if q.startswith("mol_prob.") and any(
+        isinstance(n, ast.Compare) and isinstance(n.ops[0], (ast.In, ast.NotIn)) and "handled" in src(n.comparators[0]) for n in own_nodes(f.node))]
+    if eq is None or not users:
+        res.ob(rule, ci.qualname, "dedup-inert", "states are compared by identity (no __eq__) or never filtered", f"{ci.module.relpath}:{ci.node.lineno}", True)
+        return
+    res.unit(eq)
+    o = eq.params[1]
+    fields = []
+    for n in own_nodes(eq.node):
+        if isinstance(n, ast.Compare) and len(n.ops) == 1 and isinstance(n.left, ast.Attribute) and isinstance(n.comparators[0], ast.Attribute):
+            l, r = n.left, n.comparators[0]
+            if src(l.value) == "self" and src(r.value) == o and l.attr == r.attr:
+                fields.append(l.attr)
+            elif src(l.value) == o and src(r.value) == "self" and l.attr == r.attr:
+                fields.append(l.attr)
+    # fields holding a notation object whose class hierarchy defines no __eq__ (identity comparison)
+    notation = {c.name for c in eng.prog.classes.values() if c.name == "BigSMILESbase" or "BigSMILESbase" in _mro_names(eng, c)}
+    with_eq = sorted(c for c in notation if any(eng.prog.classes[k].method("__eq__") is not None for k in [c] + _mro_names(eng, eng.prog.classes[c]) if k in eng.prog.classes))
+    init = ci.method("__init__")
+    big_fields = [s.targets[0].attr for s in own_nodes(init.node) if isinstance(s, ast.Assign) and isinstance(s.targets[0], ast.Attribute) and isinstance(s.value, ast.Name)
+                  and s.value.id in init.params and s.value.id in ("big", "big_mol", "bigsmiles", "molecule")]
+    identity = [f for f in fields if f in big_fields] and not with_eq
+    masses = "_element_weights" in fields
+    res.ob(rule, eq, "distinguishes-block-masses", "two search states compare equal only if their block masses agree (or never: the notation object they carry is compared by identity)", eq.node,
+           bool(identity) or masses,
+           f"compared between the two states: {sorted(fields)}; notation classes with __eq__: {with_eq}; block masses compared: {masses}")
+
+
+def _mro_names(eng, c, seen=None):
+    seen = seen or set()
+    out = []
+    for b in c.base_names:
+        b = b.split(".")[-1]
+        if b in seen:
+            continue
+        seen.add(b)
+        out.append(b)
+        if b in eng.prog.classes:
+            out += _mro_names(eng, eng.prog.classes[b], seen)
+    return out
+
+
 def check(eng, res):
+    from ..fresh import fresh_flags
+
+    res.doc("R-FRESH-FLAG", "A-FRESH: no condition flag tested inside a loop keeps its value from a previous iteration")
+    fresh_flags(eng, res, {'mol_prob'})
     res.doc("R-MATCH-COPY", "search copies are plain deep copies (independent states)")
     res.doc("R-DRAW-PARAMS", "prob_mw's cdf / pmf calls receive the family's own parameters (C11)")
     res.doc("R-MASS-ACCOUNT", "which masses are accumulated per element: plain tokens and repeat units only (cross-check with the generator's law, C07)")
@@ -347,5 +400,7 @@ def check(eng, res):
     match_copy(eng, res)
     res.doc("R-REACTION-PROB", "per-step probabilities mirror the generator: list entry / list total; weight / Σ compatible weights; atom weight / Σ open atoms' weights")
     reaction_prob(eng, res)
+    res.doc("R-MATCH-DEDUP", "the duplicate filter of the search cannot merge states with different block masses")
+    match_dedup(eng, res)
     res.assumptions += ["RDKit substructure matching enumerates the embeddings of a fragment"]
     res.not_decided += ["equality of the two numbers for all molecules", "the sum over the ensemble being 1", "atom-order invariance (RDKit substructure matching)", "reaction probabilities for objects with several repeat units"]
